@@ -29,9 +29,14 @@ def run(rep, tier, seed):
     cases.sort(key=lambda c: (c["sig"], str(c["f1"]), str(c["f2"]), c["op"]))
     log(f"[C04] TLC: {t.generated} states, {len(cases)} cases in {t.wall:.1f}s")
     reqs = []; meta = []
+    # thorough: the full product is ~1e6 statements; keep every case of the small shapes and a seeded 30% of the rest
+    keep_pct = 100 if tier == "quick" or len(cases) < 80000 else 30
+    rsel = random.Random(seed)
     for n, cs in enumerate(cases):
         op = cs["op"]
         if tier == "quick" and op != "=" and (n % 4) != ["+=", "-=", "*=", "/="].index(op):
+            continue
+        if keep_pct < 100 and cs["r"] * cs["c"] > 6 and rsel.randrange(100) >= keep_pct:
             continue
         allv = cs["x"] + cs["srcv"] + cs["post"]
         ks = ["f64"]
@@ -116,7 +121,7 @@ def run(rep, tier, seed):
         if got is None or got[0] != 'mat' or got[1] != kind or (got[2], got[3]) != (r, c):
             rep.fail(sig + "/shape-or-kind-changed", f"{req['stmts']} changed shape/kind of x: {shown}", replay); continue
         if exp == "reject":
-            fsig = "C04/mask-wrong-length-accepted" if cs.get("why") == "mask-length" else sig + "/accepts-out-of-range"
+            fsig = "C04/mask-wrong-length-accepted/" + "/".join(cs["sig"].split("/")[1:]) if cs.get("why") == "mask-length" else sig + "/accepts-out-of-range"
             rep.fail(fsig, f"{req['stmts']} succeeded (x = {shown}) but the target addresses no element", replay); continue
         addr = set(cs["addr"])
         if exp == "frame" or (exp == "free" and not addr):
